@@ -1,9 +1,16 @@
 #!/bin/bash
 # usage: tools/eval_queue.sh <listfile "label ID [ID..]" per line> <worker> <nworkers> <outfile>
+# every worker keeps one scratch copy (/tmp/mut_evw<worker>, with its cargo target directory) for all its runs;
+# a run already present in <outfile> is skipped
 LIST="$1"; W="$2"; N="$3"; OUT="$4"; i=0
 while read -r L CHECKS; do
   if [ $((i % N)) -eq "$W" ]; then
-    /verif/tools/eval_seed.sh /verif/work/seedin/$L/patch.diff $L $CHECKS >> "$OUT" 2>&1
+    for ID in $CHECKS; do
+      if grep -qs "^$L $ID rc=" "$OUT"; then continue; fi
+      /verif/tools/mutant_run.sh /verif/work/seedin/$L/patch.diff evw$W "$ID" > /verif/work/confirm/${L}_$ID.log 2>&1
+      RC=$?
+      echo "$L $ID rc=$RC violations=$(grep -c '^VIOLATION' /verif/work/confirm/${L}_$ID.log) known=$(grep -c '^KNOWN-FINDING' /verif/work/confirm/${L}_$ID.log)" >> "$OUT"
+    done
   fi
   i=$((i+1))
 done < "$LIST"
